@@ -667,6 +667,9 @@ def nnx_classes():
       if 'cache' in f:
         h = h + 0.1 * self.last.value
         self.last.value = h.reshape((-1, h.shape[-1])).mean(axis=0)
+      if 'nsow' in f:
+        # default nnx sow: an Intermediate whose value is a TUPLE that grows by one entry per call
+        self.sow(nnx.Intermediate, 'acts', h.mean())
       return h
 
   class NCounter(nnx.Module):  # no rngs argument: ToLinen(skip_rng=True)
@@ -713,7 +716,7 @@ def nnx_classes():
   return _NCLS
 
 
-NFEATS = ['bn', 'dropout', 'gain', 'count', 'lora', 'noise', 'stack', 'cache', 'nnxpart', 'linpart']
+NFEATS = ['bn', 'dropout', 'gain', 'count', 'lora', 'noise', 'stack', 'cache', 'nnxpart', 'linpart', 'nsow']
 
 
 def expected_collection(t):
@@ -832,8 +835,17 @@ def run_tolinen(ctx, cfg, rng):
 
   def sync(mod, V):
     iv = flat_linen(inner(V))
-    for k, v in module_vars(mod).items():
-      v.value = leaf_value(iv[k])
+    mv = module_vars(mod)
+    for k, v in mv.items():
+      if k in iv:
+        v.value = leaf_value(iv[k])
+    # Variables that only exist once the module has run (sow): a freshly built reference module does not have them yet
+    for k, leaf in iv.items():
+      if k[0] == 'intermediates' and k not in mv and len(k) == 2:
+        setattr(mod, k[1], nnx.Intermediate(leaf_value(leaf)))
+    for k, v in mv.items():
+      if k[0] == 'intermediates' and k not in iv and len(k) == 2:
+        delattr(mod, k[1])
 
   def build(keys):
     if skip:
@@ -916,7 +928,10 @@ def run_tolinen(ctx, cfg, rng):
                 lambda: dict(step=si, note='apply on variables|updates vs the NNX module called repeatedly'))
     if mut is not False:
       got_cols = sorted(c for c in inner(upd) if c != 'nnx')
-      want_cols = all_cols if mut is True else sorted(set(mut) & set(all_cols))
+      # collections the module holds AFTER this call (a sow creates 'intermediates' on the first call)
+      now_cols = sorted({k[0] for k in module_vars(ref)})
+      want_cols = now_cols if mut is True else sorted(set(mut) & set(now_cols))
+      all_cols = sorted(set(all_cols) | set(got_cols))
       ctx.check(got_cols == want_cols, 'tolinen.mutable_roundtrip:collections', lambda: dict(got=got_cols, want=want_cols))
       dd = state_vs(ref, upd, cols=set(want_cols)) if exact else None
       if exact:
@@ -1227,12 +1242,178 @@ def run_registry(ctx, rng, i):
     check_registry(ctx, 'register.convert')
 
 
+def run_tonnx_in_parent(ctx, i, rng):
+  """A ToNNX wrapper held by an NNX parent whose __call__ passes `mutable=` to it (the usual way to run a wrapped BatchNorm block):
+  the parent is initialised with bridge.lazy_init through that very call and then called repeatedly; every output equals Linen apply
+  on the variables held by the wrapper and the running statistics advance as Linen's mutable outputs say."""
+  import jax
+  import jax.numpy as jnp
+  import flax.linen as nn
+  from flax import nnx
+  from flax.nnx import bridge
+  mutable_arg_ = [['batch_stats'], True, ['batch_stats', 'intermediates'], 'batch_stats'][i % 4]
+  n_calls = 1 + (i // 4) % 3
+  d = rng.randint(2, 4)
+  desc = dict(mutable=repr(mutable_arg_), calls=n_calls, d=d)
+  with ctx.case('tonnx.in_parent', i, desc, nontrivial=True):
+    class LM(nn.Module):
+      @nn.compact
+      def __call__(self, x):
+        return nn.BatchNorm(use_running_average=False, momentum=0.5)(nn.Dense(d)(x))
+
+    class P(nnx.Module):
+      def __init__(self, rngs):
+        self.sub = bridge.ToNNX(LM(), rngs=rngs)
+        self.scale = nnx.Param(jnp.asarray(2.0))
+
+      def __call__(self, x):
+        return self.sub(x, mutable=mutable_arg_) * self.scale.value
+
+    x = jnp.asarray(np.random.default_rng(i).uniform(-1, 1, (4, 3)).astype(np.float32))
+    p = P(nnx.Rngs(i))
+    try:
+      bridge.lazy_init(p, x)
+    except Exception as e:  # noqa: BLE001
+      ctx.check(False, 'tonnx.lazy_init_through_mutable_call:raises', dict(case=desc, error=repr(e)[:300]))
+      return
+    ctx.op('bridge.lazy_init(parent calling ToNNX with mutable=)')
+    V = bv_vars(p.sub)
+    ctx.check(set(V) >= {'params', 'batch_stats'}, 'tonnx.lazy_init_through_mutable_call:collections', lambda: dict(case=desc, got=sorted(V)))
+    for c in range(n_calls):
+      want_y, want_upd = LM().apply(V, x, mutable=['batch_stats'])
+      y = p(x)
+      ctx.op('ToNNX(mutable=) inside NNX parent')
+      ctx.check(close(y, want_y * 2.0), 'tonnx.output:in_parent', lambda: dict(case=desc, call=c))
+      V2 = bv_vars(p.sub)
+      ctx.check(tree_same(V2['batch_stats'], want_upd['batch_stats'], exact=False), 'tonnx.mutable_update_dropped:in_parent', lambda: dict(case=desc, call=c))
+      ctx.check(tree_same(V2['params'], V['params']), 'tonnx.params_changed:in_parent', lambda: dict(case=desc, call=c))
+      V = V2
+
+
+def run_tolinen_reused(ctx, i, rng):
+  """One ToLinen instance called several times inside a Linen parent: init creates ONE NNX module whose state every call shares
+  (as one Linen sub-module called twice would), so init's output is what apply returns on the variables init returned."""
+  import jax
+  import jax.numpy as jnp
+  import flax.linen as nn
+  from flax import nnx
+  from flax.nnx import bridge
+  C = nnx_classes()
+  # stateless blocks only: for a stateful block the property does not say whether init exposes the state before or after the
+  # initial call (see run_tolinen), so "one module called n times during init" has no unique expected state
+  feats = [(), ('gain',), ('lora',), ('stack',), ('gain', 'lora')][i % 5]
+  n_uses = 2 + (i // 5) % 2
+  style = ['setup', 'compact'][(i // 10) % 2]
+  d = 3
+  desc = dict(feats=feats, uses=n_uses, style=style)
+  with ctx.case('tolinen.reused', i, desc, nontrivial=True):
+    if style == 'setup':
+      class Par(nn.Module):
+        def setup(self):
+          self.inner = bridge.to_linen(C['NBlock'], d, d, feats=feats)
+
+        def __call__(self, x):
+          for _ in range(n_uses):
+            x = self.inner(x)
+          return x
+    else:
+      class Par(nn.Module):
+        @nn.compact
+        def __call__(self, x):
+          inner = bridge.to_linen(C['NBlock'], d, d, feats=feats, name='inner')
+          for _ in range(n_uses):
+            x = inner(x)
+          return x
+
+    x = jnp.asarray(np.random.default_rng(i).uniform(-1, 1, (2, d)).astype(np.float32))
+    y0, V = Par().init_with_output(jax.random.key(i), x)
+    ctx.op('ToLinen used %d times in one parent' % n_uses)
+    # reference: ONE NNX module built with the keys Linen hands to that scope, called n_uses times
+    # take the parameters init returned (the draw itself is covered by the main tolinen stream) and start from the initial state
+    iv = flat_linen({c: t['inner'] for c, t in V.items() if c != 'nnx' and is_map(t) and 'inner' in t})
+    fresh = C['NBlock'](d, d, feats=feats, rngs=nnx.Rngs(0))
+    for k, v in module_vars(fresh).items():
+      v.value = leaf_value(iv[k])
+    h = x
+    for _ in range(n_uses):
+      h = fresh(h)
+    ctx.check(close(y0, h), 'tolinen.reused:init_output', lambda: dict(case=desc, got=np.asarray(y0).tolist(), want=np.asarray(h).tolist()))
+    y1 = Par().apply(V, x)
+    ctx.check(close(y1, h), 'tolinen.reused:apply_output', lambda: dict(case=desc, got=np.asarray(y1).tolist(), want=np.asarray(h).tolist()))
+
+
+def run_tonnx_names(ctx, i, rng):
+  """Legal Linen namings that collide inside the wrapper's attribute namespace: the same variable name in two collections of one
+  module, and a sub-module / variable called like one of the wrapper's own attributes (`module`, `rngs`). Own stream, own mechanisms
+  (known finding C18-tonnx-attribute-namespace)."""
+  import jax
+  import jax.numpy as jnp
+  import flax.linen as nn
+  from flax import nnx
+  from flax.nnx import bridge
+  kind = ['two_collections', 'attr_module', 'attr_rngs', 'two_collections_nested'][i % 4]
+  desc = dict(kind=kind)
+  with ctx.case('tonnx.names', i, desc, nontrivial=True):
+    if kind.startswith('two_collections'):
+      class Two(nn.Module):
+        @nn.compact
+        def __call__(self, x):
+          w = self.param('w', nn.initializers.ones, (3,))
+          s_ = self.variable('stats', 'w', lambda: jnp.full((3,), 5.0))
+          return x * w + s_.value
+
+      class Outer(nn.Module):
+        @nn.compact
+        def __call__(self, x):
+          return Two(name='two')(x) * 2.0
+
+      lm = Two() if kind == 'two_collections' else Outer()
+    else:
+      nm = 'module' if kind == 'attr_module' else 'rngs'
+
+      class Named(nn.Module):
+        @nn.compact
+        def __call__(self, x):
+          return nn.Dense(3, name=nm)(x)
+
+      lm = Named()
+    x = jnp.asarray(np.random.default_rng(i).uniform(-1, 1, (2, 3)).astype(np.float32))
+    V = lm.init(jax.random.key(0), x)
+    want = lm.apply(V, x)
+    mech = 'tonnx.name_collision:' + ('same_name_in_two_collections' if kind.startswith('two') else 'wrapper_attribute')
+    try:
+      m = bridge.ToNNX(lm, rngs=nnx.Rngs(0)).lazy_init(x)
+      got = m(x)
+    except Exception as e:  # noqa: BLE001
+      ctx.check(False, mech, dict(case=desc, error=repr(e)[:300]))
+      return
+    ctx.op('ToNNX(name collision: %s)' % kind)
+    held = bv_vars(m)
+    want_held = lm.apply(held, x) if set(held) >= set(V) else None
+    ctx.check(want_held is not None and close(got, want_held), mech, lambda: dict(case=desc, collections_held=sorted(held), collections_of_module=sorted(V)))
+
+
+def bv_vars(wrapper):
+  """Linen variables held by a ToNNX wrapper (plain arrays)."""
+  import jax
+  from flax.nnx.bridge import variables as bv
+  attrs = {k: v for k, v in vars(wrapper).items() if k not in ('module', 'rngs', '_object__state')}
+  V = bv.nnx_attrs_to_linen_vars(attrs)
+  return jax.tree_util.tree_map(lambda a: a, {c: t for c, t in V.items() if c != 'nnx'})
+
+
 # ---------------------------------------------------------------------------------------------
 
 
 def run(ctx):
   import jax.numpy as jnp
   from vf.gen import linen_prog as LP
+  for i in ctx.indices(8, 'tonnx.names'):
+    run_tonnx_names(ctx, i, ctx.rng('tonnx.names', i))
+  for i in ctx.indices(20 if ctx.tier == 'quick' else 80, 'tolinen.reused'):
+    run_tolinen_reused(ctx, i, ctx.rng('tolinen.reused', i))
+  for i in ctx.indices(24 if ctx.tier == 'quick' else 96, 'tonnx.in_parent'):
+    run_tonnx_in_parent(ctx, i, ctx.rng('tonnx.in_parent', i))
   q = ctx.tier == 'quick'
   L = linen_classes()
 
